@@ -186,7 +186,7 @@ def check_codes():
 
 
 def plan(tier):
-    jobs = [{"part": "codes"}, {"part": "strlen"}]
+    jobs = [{"part": "codes"}, {"part": "strlen"}, {"part": "arrlen"}]
     for name, size in FIXED.items():
         if size == 1:
             jobs.append({"part": "exhaustive", "type": name, "lo": 0, "hi": 256})
@@ -235,6 +235,13 @@ def run_job(ctx, job):
             for d in discs:
                 ctx.violation(d, "value", {"t": t, "v": v})
         ctx.exhaustive_parts.append("string length-prefix boundaries")
+    elif part == "arrlen":
+        for t, v in C.boundary_array_cases():
+            discs = check_value_case(t, v)
+            ctx.case(("arrlen", str(t["len"]), t["el"]["k"], len(v)), True, ["array", "array-length-boundary"])
+            for d in discs:
+                ctx.violation(Disc(d.bucket, d.detail[:300] + f" ... [{len(v)} elements]"), "value", {"t": t, "v": v})
+        ctx.exhaustive_parts.append("array length-prefix boundaries")
     elif part == "exhaustive":
         t = T(job["type"])
         size = FIXED[job["type"]]
